@@ -87,6 +87,8 @@ Clauses(r) ==
     [] r.op = "x.cmpbe" ->
          LET a == BnFromBE(r.in.a) b == BnFromBE(r.in.b) c == BnCmp(a, b) IN
          << <<"CompareBigEndian-sign", (r.out.c > 0) = (c > 0) /\ (r.out.c < 0) = (c < 0)>> >>
+    [] r.op = "x.outvalid" ->
+         << <<"CTxOut.is_valid", r.out.valid = (r.in.txout.value[8] < 128 /\ BnLe(BnFromLE(r.in.txout.value), MaxMoney) /\ RawOps(r.in.txout.script).ok)>> >>
     [] OTHER -> << <<"unknown-op", FALSE>> >>
 TraceInit == l = TraceStart
 TraceNext == l <= Len(Recs) /\ Judge(Recs[l], Clauses(Recs[l])) /\ l' = l + 1
